@@ -105,8 +105,12 @@ class Constr:
 
     def holds(self, a):
         """True / False / z3 condition"""
-        n, d = zq(self.expr.value(a))
-        r = z3.simplify({'>=': n >= 0, '<=': n <= 0, '==': n == 0}[self.sense])
+        v = self.expr.value(a)
+        k = v.const() if isinstance(v, SymNum) else v
+        if k is not None:
+            return (k >= 0) if self.sense == '>=' else ((k <= 0) if self.sense == '<=' else (k == 0))
+        n, d = zq(v)
+        r = z3.simplify((n >= 0) if self.sense == '>=' else ((n <= 0) if self.sense == '<=' else (n == 0)))
         return True if z3.is_true(r) else (False if z3.is_false(r) else r)
 
 
